@@ -135,6 +135,11 @@ def c04(chk, tier):
         CC.replay_emitted(chk, "MCClassify rain{0,2} inc{0,J+1}", consts(9, 4, "{0, 2}", "IncFlatFast"),
                           ["AlgorithmsEqualDefinitions", "InterstormsSound"], [], PRES[:1], CC.KEYS["C04"],
                           nontrivial=nt_inter)
+    # increments JUST above the threshold (one unit in 2^22) must count as rises
+    CC.replay_emitted(chk, "MCClassify fine lattice: rain{0,2,S+1} inc{-1,J,J+1}",
+                      {"N1": "4" if q else "5", "N2": "2", "RainVals": "{0, 2, %d}" % (FINE + 1),
+                       "IncVals": "<- IncFallAtFast", "S": str(FINE), "J": str(FINE), "Emit": "TRUE"},
+                      ["AlgorithmsEqualDefinitions", "InterstormsSound"], [], PRES_FINE[:1], CC.KEYS["C04"], nontrivial=nt_inter)
     # records of every length: the online machine against the streaming form of the definition
     # (finite state space, unbounded behaviours: exhaustive exploration is a proof)
     from . import tlc
